@@ -97,6 +97,12 @@ impl RouterSocket {
     self.held_count.fetch_add(1, Ordering::AcqRel);
   }
 
+  /// Are batches of this pipe still held? A pipe can finalize between two pops: the batch popped
+  /// after that must queue up behind the held ones, or it would overtake them.
+  fn has_held_batches(&self, pipe_read_id: usize) -> bool {
+    self.held_count.load(Ordering::Acquire) != 0 && self.held_ingress.lock().contains_key(&pipe_read_id)
+  }
+
   /// Pops the next held batch belonging to a now-finalized pipe (FIFO per pipe).
   /// Returns `None` when no held batch is releasable yet.
   fn take_finalized_held(&self) -> Option<(usize, FrameBatch)> {
@@ -147,11 +153,11 @@ impl RouterSocket {
           .ingress_engine
           .recv_logical_message(Some(Duration::ZERO))
           .await?;
-        if self.pipe_finalized.contains_key(&pid) {
+        if self.pipe_finalized.contains_key(&pid) && !self.has_held_batches(pid) {
           return Ok((pid, batch));
         }
-        // Pending: buffer it and re-loop; if nothing else is ready the next
-        // iteration surfaces `ResourceLimitReached` (would-block).
+        // Pending (or older batches of this pipe are still held): buffer it and re-loop; if
+        // nothing else is ready the next iteration surfaces `ResourceLimitReached` (would-block).
         self.hold_pending_batch(pid, batch);
         continue;
       }
@@ -175,7 +181,7 @@ impl RouterSocket {
         }
         popped = self.ingress_engine.pop() => {
           let (pid, batch) = popped?;
-          if self.pipe_finalized.contains_key(&pid) {
+          if self.pipe_finalized.contains_key(&pid) && !self.has_held_batches(pid) {
             return Ok((pid, batch));
           }
           self.hold_pending_batch(pid, batch);
